@@ -569,10 +569,13 @@ func (b *RefinementBuilder) NewValue() (ret Value) {
 					case ty.IsMapType():
 						return MapValEmpty(ty.ElementType())
 					}
-				} else if ty.IsListType() {
+				} else if ty.IsListType() && knownLen <= maxKnownLengthPlaceholders {
 					// If we know the length of the list then we can
 					// create a known list with unknown elements instead
-					// of a wholly-unknown list.
+					// of a wholly-unknown list. (Only up to a length that is
+					// reasonable to materialize: the bounds can come from
+					// serialized data, and a longer list stays an unknown
+					// value with an exact length refinement.)
 					elems := make([]Value, knownLen)
 					unk := UnknownVal(ty.ElementType())
 					for i := range elems {
@@ -595,6 +598,10 @@ func (b *RefinementBuilder) NewValue() (ret Value) {
 		v:  &unknownType{refinement: b.wip},
 	}
 }
+
+// maxKnownLengthPlaceholders is the longest list that NewValue will build
+// out of unknown placeholder elements when a refinement fixes its length.
+const maxKnownLengthPlaceholders = 1024
 
 // unknownValRefinment is an interface pretending to be a sum type representing
 // the different kinds of unknown value refinements we support for different
